@@ -39,4 +39,24 @@ PROPS = {
         "trusted_base": ["JSON encoding of dumps is outside the model: what a JSON round trip does to nil/empty slices and maps is exercised by the harness only"],
         "assumptions": [],
     },
+    "C09": {
+        "props": "Props/C09.v", "scenarios": ["c09"],
+        "rule": "a real node (LevelDB state, file board, real services) replays every prefix of an honest n=3,t=2 ceremony + signing batch [thorough: also (4,3), (2,2)]; after each prefix the next genuine message is injected in 10 mutated forms (signature bit flip / truncated / empty, payload digit changed / byte appended, sender renamed to another participant / a stranger / empty, re-signed with another participant's / a fresh key). One case = one history; all are non-trivial. Snapshot of every round, both operation keys, all signature keys and the board before/after; compared with the Coq node model.",
+        "exhaustive": {"quick": False, "thorough": False}, "trusted_base": ["ed25519 idealised (a signature names key and bytes); threshold crypto symbolic at node level (token ranges assigned by the harness from real kyber values; recover follows kyber tbls.Recover)", "JSON decoding of board messages, operations and dumps is done by the implementation's own decoders in the harness; the model starts from decoded values", "wall clock (time.Now) is an input of the model (NOWMARK); LevelDB and the file board are the real ones"], "assumptions": [],
+    },
+    "C10": {
+        "props": "Props/C10.v", "scenarios": ["c10"],
+        "rule": "every ordered pair (attacker S, victim P), S != P, for every genuine message of an honest n=3,t=2 history: the victim's request sent and validly signed by S, in the state where P is awaited (plus decline in P's name); every genuine message re-posted under a second round identifier in the same state; confirmations re-posted as declines / error reports. One case = one history.",
+        "exhaustive": {"quick": False, "thorough": False}, "trusted_base": ["ed25519 idealised (a signature names key and bytes); threshold crypto symbolic at node level (token ranges assigned by the harness from real kyber values; recover follows kyber tbls.Recover)", "JSON decoding of board messages, operations and dumps is done by the implementation's own decoders in the harness; the model starts from decoded values", "wall clock (time.Now) is an input of the model (NOWMARK); LevelDB and the file board are the real ones"], "assumptions": [],
+    },
+    "C15": {
+        "props": "Props/C15.v", "scenarios": ["c15"],
+        "rule": "after prefixes of an honest ceremony that leave an operation pending: the unaltered result, and results with a claimed sender, without event (request-only), unknown / short id, changed type, changed / truncated payload, no messages, and the valid result submitted twice - through node.ProcessOperation on a real node; board, pool and tombstones compared with the model and judged by the C15 oracle. Operation ids are checked against md5(round_base64(payload)).",
+        "exhaustive": {"quick": False, "thorough": False}, "trusted_base": ["ed25519 idealised (a signature names key and bytes); threshold crypto symbolic at node level (token ranges assigned by the harness from real kyber values; recover follows kyber tbls.Recover)", "JSON decoding of board messages, operations and dumps is done by the implementation's own decoders in the harness; the model starts from decoded values", "wall clock (time.Now) is an input of the model (NOWMARK); LevelDB and the file board are the real ones"], "assumptions": ["the HTTP layer (echo handlers) and the JSON file round trip are not exercised in this round"],
+    },
+    "C18": {
+        "props": "Props/C18.v", "scenarios": ["c18"],
+        "rule": "after prefixes of an honest ceremony (11 positions quick, all thorough): ~80 hostile board messages validly signed where needed (unknown / empty / internal events; for ten event types: truncated JSON, null, array, type confusion, negative and huge participant ids, empty object; signing proposals with negative / out-of-range / empty / huge baked ranges; unknown, two-character and empty round ids). Oracle: no panic; a refused message leaves the durable snapshot unchanged. Compared with the model.",
+        "exhaustive": {"quick": False, "thorough": False}, "trusted_base": ["ed25519 idealised (a signature names key and bytes); threshold crypto symbolic at node level (token ranges assigned by the harness from real kyber values; recover follows kyber tbls.Recover)", "JSON decoding of board messages, operations and dumps is done by the implementation's own decoders in the harness; the model starts from decoded values", "wall clock (time.Now) is an input of the model (NOWMARK); LevelDB and the file board are the real ones"], "assumptions": ["operation files fed to the airgapped machine and request bodies of the HTTP API are not covered in this round (node board messages only)"],
+    },
 }
